@@ -293,6 +293,36 @@ fn explore(ctx: &mut Ctx) {
     if ctx.too_many() {
         return;
     }
+    // long patterns (beyond the exhaustive bound): the input starts / ends with the pattern, or with the
+    // pattern changed in exactly one position j, for every pattern length 1..=48 and every j
+    let long: Vec<u8> = (0..48u8).map(|i| b"0123456789abcdefghijklmnopqrstuvwxyzABCDEFGHIJKL"[i as usize]).collect();
+    for len in 1..=long.len() {
+        let pat = &long[..len];
+        for j in 0..=len {
+            let mut body = pat.to_vec();
+            if j < len {
+                body[j] ^= 0x20; // j == len: unchanged (the pattern really is a prefix / suffix)
+            }
+            for tail in [&b""[..], b"-rest"] {
+                let mut pre = body.clone();
+                pre.extend_from_slice(tail);
+                eval(ctx, &pre, pat);
+                let mut suf = tail.to_vec();
+                suf.extend_from_slice(&body);
+                eval(ctx, &suf, pat);
+            }
+            // repeated pattern with the difference in the second repetition (trim_*_matches)
+            let mut rep = pat.to_vec();
+            rep.extend_from_slice(&body);
+            rep.extend_from_slice(b"!");
+            eval(ctx, &rep, pat);
+            let mut rep = b"!".to_vec();
+            rep.extend_from_slice(&body);
+            rep.extend_from_slice(pat);
+            eval(ctx, &rep, pat);
+        }
+    }
+    ctx.exhaustive_part("long patterns: every prefix (length 1..=48) of a 48-byte pattern x a single changed byte at every position (or none), as prefix, as suffix and as second repetition");
     let n = ctx.by_tier(150_000, 3_000_000);
     let strat = (2u8..=3).prop_flat_map(|k| {
         (
